@@ -183,14 +183,16 @@ CLAIMS['C18'] = dict(
     design_ref='DESIGN.md 5 C18')
 
 CLAIMS['C19'] = dict(
-    text='PARTIAL: unbounded proof of the helper under make_relative_path, find_common_prefix_of_sorted_vec (utils.rs:32-57): for two component lists it returns exactly '
-         'their longest common leading run (nothing when they share no first component), always a non-empty prefix of the first list, with no out-of-range index; this '
-         'is the "however many leading components they share" part of the statement. make_relative_path itself (split on both separators, filter, pop, sort by length, '
-         '"../" per remaining base component, join of the remaining target components, "." for an empty result) is a chain of std iterator adapters outside the '
-         'verifier\'s subset and is decided by the bounded stand-in relpath only (all pairs of paths of 1..4 components, 1..5 in the thorough tier).',
-    note=_TB + 'Assumed for the helper: Cow<[&str]> deref, Option<&&str> comparison with Some(&comp), Option<usize> ordering (None first), &s[..=i], Iterator::enumerate. '
-         'With three or more lists the helper can return a run that one list does not share (the minimum is reset when an earlier list shares nothing); no listed property '
-         'depends on that (make_relative_path passes two lists; rewrite only strips the result from sources that start with it).',
+    text='Unbounded proof: the real text of make_relative_path is verified to write exactly one "../" per component of the base file\'s directory beyond the leading components it shares with '
+         'the target, followed by the remaining target components joined by "/", and "." when that text is empty -- on top of the verified helper find_common_prefix_of_sorted_vec (for two lists: '
+         'their longest common leading run) and with the subtraction and the slice proved in range; and C19 itself is a theorem over that contract (lemma_make_relative_path_leads_to_target): for a '
+         'target made of ordinary components (none is "." or ".."), splitting the returned text into components and resolving them against the base directory (".." pops, "." stays, anything else '
+         'pushes) gives exactly the target\'s components, the result is "." only when the target is that directory, and is "." whenever it is -- for all depths and all shared-prefix lengths. The '
+         'component splitter is an explicit recursive definition (non-empty maximal runs of characters other than \'/\' and \'\\\'), and "components of "../"*n + join(xs, "/") are n times ".." then xs" '
+         'is proved by induction.',
+    note=_TB + 'Assumed: the adapter chains of std behave as named -- split(&[..][..]).filter(non-empty).collect() = components, sort_by_key(len) = stable sort by length, repeat(s).take(n).collect(), '
+         'slice.join, Option::map/unwrap_or, String::push_str / is_empty (vstd), Cow<[&str]> deref, Option comparisons, &s[..=i], Iterator::enumerate. The bounded stand-in relpath still runs through the public API. '
+         'With three or more lists the helper can return a run that one list does not share; no listed property depends on that (make_relative_path passes two lists).',
     design_ref='DESIGN.md 5 C19')
 
 CLAIMS['C20'] = dict(
@@ -215,7 +217,7 @@ NOT_COVERED = {
     'C15': ['the sequential reading of Mutex / AtomicUsize is an assumption (R-seq); threads are C16', 'SourceView::from_string / clone (other constructors), Lines as an Iterator impl (verified as the inherent method, R-trait-inherent)', 'the unsafe lifetime extension of cached lines'],
     'C17': ['RevTokenIter::next (backward walk with the cached line / column / byte offset): bounded stand-in function_name', 'SourceView::get_original_function_name pairing loop (take(128).peekable(), if_chain!): bounded', 'SourceMap / SourceMapIndex / DecodedMap::get_original_function_name wrappers'],
     'C18': ['how BufReader::lines cuts bytes into lines (std; assumed -- exercised by the bounded stand-in discover incl. texts larger than any buffer)', 'to_data_url / decode_data_url round trip (base64 of two crates): bounded', 'is_sourcemap / is_sourcemap_slice wiring around serde_json: bounded (header, discover)'],
-    'C19': ['make_relative_path itself (iterator-adapter chain: split / filter / collect / sort_by_key / repeat / take / join): bounded stand-in relpath', 'find_common_prefix (the rewrite "~" option): not part of C19'],
+    'C19': ['the std adapter chains inside make_relative_path are behind assumed contracts (split/filter/collect, sort_by_key, repeat/take/collect, join); the bounded stand-in relpath exercises the real ones', 'find_common_prefix (the rewrite "~" option): not part of C19'],
     'C20': ['scroll::Pread internals and the derive(Pread) expansion (assumed contracts; exercised by the bounded stand-in ram_bundle)', 'UnbundleRamBundle (file-system based variant)', 'split_ram_bundle / SplitRamBundleModuleIter (composition with flatten and SourceMapBuilder)', 'that Iterator::next of RamBundleModuleIter is the inherent body verified here (R-trait-inherent: same text, emitted outside the trait impl)'],
     'C10': ['the sweep of adjust_mappings (skip / overlap / clip / advance, displacement arithmetic, final sort): bounded stand-in only', 'positions >= 2^31 (as i32)'],
     'C09': ['strip_prefixes, find_common_prefix ("~") (bounded stand-in rewrite only)', 'load_local_source_contents (filesystem; excluded by the property)', 'SourceMapHermes::rewrite function-map permutation (bounded stand-in only)'],
